@@ -674,3 +674,46 @@ def spec_C16(tier):
                            "range. Behaviour clause: every bounds/slice/nil/division check on every path of the Write/ReadFrom/Reset/Parse/Shrink/wrapped-Parse harnesses is a solver query (no feasible "
                            "panic), loops are bounded (unwinding failure = inconclusive), returned errors are the documented ones",
             "reach": {"zzH_cfgNewParser": ["end", "accepted", "rejected"]}}
+
+
+# ---------------------------------------------------------------- suffix.Sort / LCP / InvertSA (C09)
+
+def spec_C09(tier):
+    jobs = []
+    fams = [(3, 4, 2), (5, 3, 1), (2, 7, 3)] if tier == "quick" else [(3, 6, 3), (5, 4, 2), (2, 10, 4), (4, 5, 2)]   # (letters, length, pinned prefix)
+    for k, N, pins in fams:
+        for n in range(0, N + 1):
+            np_ = min(pins, max(0, n - 2))
+            def rec(prefix):
+                if len(prefix) == np_:
+                    pp = {"n": n, "k": k}
+                    for i, v in enumerate(prefix):
+                        pp["p[%d]" % i] = v
+                    jobs.append(J("sort-k%d-n%d-%s" % (k, n, "".join(map(str, prefix)) or "all"), "zzH_sortSmall", pkg="suffix", params=pp, max_steps=60000000))
+                    return
+                for v in range(k):
+                    rec(prefix + [v])
+            rec([])
+    NL = 5 if tier == "quick" else 7
+    for n in range(NL + 1):
+        jobs.append(J("lcp-n%d" % n, "zzH_lcpTable", pkg="suffix", params={"n": n}))
+    j, b = kernel_jobs(tier, ["matchLen"])
+    jobs += j
+    bounds = {"Sort": ["all texts of length 0..%d over %d of the letters 0x00, 0xff, 0x01, 0xfe, 0x7f (in that order); previous sa contents arbitrary" % (N, k) for k, N, _ in fams],
+              "LCP, InvertSA": "all texts of 0..%d arbitrary bytes with the correct suffix array (reference sort; one path per order type), sainv supplied and not supplied, previous lcp contents arbitrary" % NL}
+    bounds.update(b)
+    return {"jobs": jobs, "bounds": bounds,
+            "assumptions": ["reference: insertion sort of the suffixes with naive byte-wise comparison; naive common-prefix computation", "64-bit int"],
+            "outside": ["texts longer than the bounds; alphabets outside the five letters for Sort. In particular the B*-substring introsort/heapsort of ssort.go and the budget, copy and "
+                        "partial-copy paths of trsort.go need buckets with more than 7 B* suffixes (texts of some dozen to some thousand bytes) and are NOT reached: see "
+                        "coverage.unreached_blocks_in_every_job. Long repeats, Fibonacci / Thue-Morse / de Bruijn words of realistic length are outside this technique's reach; "
+                        "forcing the fallbacks through a verif-tagged threshold hook would verify a configuration the library never uses and is not done",
+                        "LCP with sa == nil (calls Sort internally: covered by the Sort bound only)"],
+            "explanation": "Sort is executed symbolically (bucket arrays as sparse objects, every comparison a solver-decided branch) and its result compared with the reference order, t unchanged; "
+                           "LCP/InvertSA/matchLen are compared with naive computations for all byte values",
+            "reach": {"zzH_sortSmall": ["end"], "zzH_lcpTable": ["end"]}}
+
+
+META["C09"] = {"level": "bounded model checking, small scope: suffix.Sort executed symbolically on all short texts over a five-letter alphabet chosen for the special cases of k1.go, LCP/InvertSA on all "
+                        "short texts of arbitrary bytes, matchLen on all slices up to the bound. The claim is explicitly limited: the sorting fallbacks that only long texts reach are not covered",
+               "note": "bounds: see evidence.bounds and evidence.outside_bounds. " + TRUST}
